@@ -400,6 +400,7 @@ def case_list(tier: str):
         out += [(f, s) for s in gen.explicit_id_specs(2)]
     # trees reached by a history (all accessors evaluated, then one change) and larger trees
     hs = gen.history_specs(gen.plain_specs(N - 1))
+    # (a history that keeps an id while the data changes fixes the id's value in the string flavour: string trees only)
     out += [("str", s) for s in hs] + [("rec_inplace", s) for s in hs]
     nb = 6 if tier == "quick" else 40
     out += [("str", s) for s in gen.big_specs(14, nb, lo=18, hi=40)] + [("rec_new", s) for s in gen.big_specs(15, nb, lo=18, hi=40)]
